@@ -43,6 +43,10 @@ structure Cfg where
   afK : Nat := 10
   isPrivate : Bool := false
   pex : Bool := true
+  /-- `AddTorrentOptions.StopAfterMetadata` -/
+  stopAfterMeta : Bool := false
+  /-- `Config.MaxPieces` (checked by `Session.parseInfo`, also for an info dictionary received from peers) -/
+  maxPieces : Nat := 65536
   deriving Repr, Inhabited
 
 def Cfg.n (c : Cfg) : Nat := c.plens.length
@@ -740,9 +744,13 @@ def handleMetadataData (m : M) (k i len : Nat) (good : Bool) : M :=
         if !hashOK then onSt (closePeerM m k) fun s => { s with mayStartI := !s.info }
         else
           let m := onSt m fun s => { s with idls := [] }
-          if s.cfg.isPrivate then onSt m (·.stop true)
+          -- `parseInfo` refuses more pieces than `Config.MaxPieces`; a private torrent is refused as well
+          if s.cfg.n > s.cfg.maxPieces then onSt m (·.stop true)
+          else if s.cfg.isPrivate then onSt m (·.stop true)
           else
             let m := onSt m fun s => { s with info := true, metaDone := true }
+            -- `StopAfterMetadata`: `stopAndSetStoppedOnMetadata()` instead of `startAllocator()`
+            if s.cfg.stopAfterMeta then onSt m (·.stop false) else
             onSt m fun s => if s.allocator then s.crash "allocator exists" else { s with allocator := true }
 
 /-- metadata reject from the peer we are downloading from -/
